@@ -220,7 +220,7 @@ fn bundled_lines(r: &mut Report) {
 }
 
 // ---- database texts ----
-pub const LINE_KINDS: [&str; 18] = [
+pub const LINE_KINDS: [&str; 22] = [
     "[tcp:request]",
     "[tcp:response]",
     "[http:request]",
@@ -239,6 +239,11 @@ pub const LINE_KINDS: [&str; 18] = [
     "; comment",
     "",
     "garbage",
+    // free text that ends with a bracket is not a section header; a section header followed by text is not one either
+    "label = s:unix:Linux:2.6.x [legacy]",
+    "sig   = 1:Host,User-Agent:Via:SomeBot/1.0 [en]",
+    "label = Ethernet [std]",
+    "[tcp:request] these are the SYN signatures",
 ];
 #[derive(Debug, Default, PartialEq, Clone)]
 pub struct DbDesc {
@@ -457,7 +462,7 @@ pub fn run(thorough: bool) -> Outcome {
     });
     r = r.merge(rep);
     bundled_lines(&mut r);
-    // database texts: every sequence of <= depth lines over the 18 line kinds, plus the bundled file
+    // database texts: every sequence of <= depth lines over the 22 line kinds, plus the bundled file
     let depth = if thorough { 6 } else { 5 };
     let k = LINE_KINDS.len();
     let mut total = 0usize;
@@ -490,7 +495,7 @@ pub fn run(thorough: bool) -> Outcome {
     check_text(&mut r, include_str!("/repo/huginn-net-db/config/p0f.fp"), "bundled-file");
     Outcome {
         report: r,
-        rule: "TCP signature values: every field over its whole domain at 4 base signatures, all option lists <= 3, all quirk pairs, full product of a 9-field alphabet (1.1M); HTTP signature values over header lists <= 3 x absent lists <= 2 x software strings; all bundled signature lines; every database text of <= depth lines over 18 line kinds + the bundled file; distinct = distinct printed texts / load outcomes".into(),
+        rule: "TCP signature values: every field over its whole domain at 4 base signatures, all option lists <= 3, all quirk pairs, full product of a 9-field alphabet (1.1M); HTTP signature values over header lists <= 3 x absent lists <= 2 x software strings; all bundled signature lines; every database text of <= depth lines over 22 line kinds + the bundled file; distinct = distinct printed texts / load outcomes".into(),
         exhaustive: true,
         bounds: json!({"db_text_max_lines": depth, "line_kinds": k, "db_texts": total, "tcp_product": prod.len(), "http_values": hv.len()}),
     }
